@@ -79,6 +79,7 @@ type RProg struct {
 	Raw    string   `json:"raw"`  // hex: raw bytes sent verbatim instead of frames (C07 garbage)
 	JSON   bool     `json:"json"` // data messages carry JSON documents (ReadJSON programs)
 	NoAlloc bool    `json:"noalloc"` // no allocation monitor (concurrent groups)
+	AllocAll bool   `json:"allocall"` // allocation monitor over ALL calls (floods of small frames), not only the first 64
 }
 
 // Ev is a generic trace event.
@@ -698,7 +699,7 @@ func (r *readerRun) exec(sc *xport.ScriptConn, outp *[]Ev) (out []Ev) {
 	ncalls := 0
 	measure := func(f func()) {
 		ncalls++
-		if ncalls > 64 || p.NoAlloc {
+		if (ncalls > 64 && !p.AllocAll) || p.NoAlloc {
 			f()
 			return
 		}
